@@ -17,9 +17,12 @@ open VelaVerif.Gen.SrcNumericUtil VelaVerif.Gen.SrcHillclimbAllocation
 /-- close `ok b₁ = ok b₂` for two boolean combinations of linear comparisons that are equivalent (in whatever order the
     source writes the conjuncts) -/
 local macro "bool_omega" : tactic =>
-  `(tactic| first
-    | rfl
-    | (congr 1; rw [Bool.eq_iff_iff]; simp only [Bool.and_eq_true, Bool.or_eq_true, decide_eq_true_eq]; omega))
+  `(tactic| (
+    repeat' py_split1       -- a conjunct with an effect (`addr2 + size2`) after the first keeps Python's short-circuit: an `if`
+    all_goals first
+      | rfl
+      | (congr 1; rw [Bool.eq_iff_iff];
+         simp only [Bool.and_eq_true, Bool.or_eq_true, decide_eq_true_eq, Bool.false_eq_true, false_iff, iff_false]; omega)))
 
 /-- `numeric_util.round_up(a, b)` = `Alloc.roundUp a b` for natural `a`, positive alignment `b` -/
 theorem src_round_up_eq_model (a b : Nat) (hb : 0 < b) :
